@@ -22,24 +22,30 @@ def levelTo (l : Generated.Level) : Book.Level := { price := l.price, amount := 
 theorem level_bijection : (∀ l, levelTo (levelOf l) = l) ∧ (∀ l, levelOf (levelTo l) = l) :=
   ⟨fun l => by cases l; rfl, fun l => by cases l; rfl⟩
 
+/-- Shape-independent: unfold *everything generated for the group* (`gen_book`: the listed kernels and whatever
+auxiliary functions the translator found by lookup, under whatever names), the model's definitions and `levelOf`, then
+let `grind` decide (field arithmetic). -/
+local macro "book_agree" : tactic => `(tactic|
+  first
+  | rfl
+  | (simp only [gen_book, levelOf, Book.midPrice, Book.volumeWeightedMidPrice, Unrealised.volumeWeightedMidPrice]; done)
+  | (simp only [gen_book, levelOf, Book.midPrice, Book.volumeWeightedMidPrice, Unrealised.volumeWeightedMidPrice]; grind))
+
 /-- free function `mid_price` (source) = `Book.midPrice` (model). -/
 theorem mid_price_agrees (bestBidPrice bestAskPrice : Rat) :
-    Generated.mid_price bestBidPrice bestAskPrice = Book.midPrice bestBidPrice bestAskPrice := by
-  simp only [Generated.mid_price, Book.midPrice] <;> grind
+    Generated.mid_price bestBidPrice bestAskPrice = Book.midPrice bestBidPrice bestAskPrice := by book_agree
 
 /-- free function `volume_weighted_mid_price` = `Book.volumeWeightedMidPrice`. -/
 theorem volume_weighted_mid_price_agrees (bestBid bestAsk : Book.Level) :
     Generated.volume_weighted_mid_price (levelOf bestBid) (levelOf bestAsk)
-      = Book.volumeWeightedMidPrice bestBid bestAsk := by
-  simp only [Generated.volume_weighted_mid_price, Book.volumeWeightedMidPrice, levelOf] <;> grind
+      = Book.volumeWeightedMidPrice bestBid bestAsk := by book_agree
 
 /-- the same kernel on the `OrderBookL1` payload of the engine's market data (C15):
 `Unrealised.volumeWeightedMidPrice`. -/
 theorem volume_weighted_mid_price_agrees_l1 (x : Stale.L1) :
     Generated.volume_weighted_mid_price { price := x.bidP, amount := x.bidA }
         { price := x.askP, amount := x.askA }
-      = Unrealised.volumeWeightedMidPrice x := by
-  simp only [Generated.volume_weighted_mid_price, Unrealised.volumeWeightedMidPrice] <;> grind
+      = Unrealised.volumeWeightedMidPrice x := by book_agree
 
 /-- Both top-of-book kernels at once. -/
 theorem book_kernels_agree :
